@@ -121,3 +121,16 @@ Proof.
     destruct (String.eqb_spec pw' pw); [contradiction|reflexivity].
 Qed.
 Print Assumptions C18_example.
+
+(* unlock_restores does not ask for distinct addresses (names_ok only asks that equal
+   addresses carry equal secrets): a collection wallet holding the same key twice
+   is restored entry by entry *)
+Definition ex_dup_wallet : wallet ideal_C :=
+  {| w_kind := KColl; w_temp := false; w_seed := ""; w_lastseed := ""; w_pass := ""; w_xprv := [];
+     w_chains := [[{| e_addr := "A0"; e_sec := "k0"; e_osec := "k0" |}; {| e_addr := "A1"; e_sec := "k1"; e_osec := "k1" |};
+                   {| e_addr := "A0"; e_sec := "k0"; e_osec := "k0" |}]];
+     w_enc := false; w_ct := None |}.
+Example C18_example_duplicates :
+  snd (unlock _ ideal_enc ideal_dec "pw" 9 (fst (lock _ ideal_enc "pw" 7 ex_dup_wallet))) = UOk ex_dup_wallet.
+Proof. vm_compute. reflexivity. Qed.
+Print Assumptions C18_example_duplicates.
